@@ -2,7 +2,10 @@
 
 package cli
 
-import "io"
+import (
+	"bytes"
+	"io"
+)
 
 // VerifRun runs the command in-process with the given arguments and streams.
 func VerifRun(args []string, stdin io.Reader, stdout, stderr io.Writer) int {
@@ -11,3 +14,28 @@ func VerifRun(args []string, stdin io.Reader, stdout, stderr io.Writer) int {
 
 // VerifSetDefaultModulePaths controls whether ~/.jq and the default library paths are consulted.
 func VerifSetDefaultModulePaths(b bool) { addDefaultModulePaths = b }
+
+// VerifEncode renders one value with the command's own encoder (indent < 0: compact).
+func VerifEncode(v any, tab bool, indent int, color bool) ([]byte, error) {
+	defer func(x bool) { noColor = x }(noColor)
+	noColor = !color
+	var buf bytes.Buffer
+	err := newEncoder(tab, indent).marshal(v, &buf)
+	return buf.Bytes(), err
+}
+
+// VerifEncodeMany renders several values with one encoder (the buffer is reused between values).
+func VerifEncodeMany(vs []any, tab bool, indent int) ([][]byte, error) {
+	defer func(x bool) { noColor = x }(noColor)
+	noColor = true
+	e := newEncoder(tab, indent)
+	var out [][]byte
+	for _, v := range vs {
+		var buf bytes.Buffer
+		if err := e.marshal(v, &buf); err != nil {
+			return out, err
+		}
+		out = append(out, buf.Bytes())
+	}
+	return out, nil
+}
